@@ -74,7 +74,7 @@ func isExitName(pe *PathEnum) func(v ssa.Value) string {
 	keyOf := func(v ssa.Value) string {
 		save := pe.Name
 		pe.Name = nil
-		k := pe.key(v, nil)
+		k := pe.key(v, pe.cur)
 		pe.Name = save
 		return k
 	}
@@ -717,10 +717,31 @@ func c03ExitCodeMap(c *Check, a *Anchors) {
 	}
 	// the error branch of main: the body of `if err := run(); err != nil { ... }`
 	var errBranch []ast.Stmt
-	for _, st := range mainFn.Body.List {
+	var okBranch []ast.Stmt // `if err == nil { os.Exit(CodeOk) }`: the success exit, when main is written the other way round
+	for i, st := range mainFn.Body.List {
 		if ifs, ok := st.(*ast.IfStmt); ok {
-			if be, ok := ast.Unparen(ifs.Cond).(*ast.BinaryExpr); ok && be.Op == token.NEQ && isNilLit(info, be.Y) && isErrorType(typeOf(info, be.X)) {
-				errBranch = ifs.Body.List
+			if be, ok := ast.Unparen(ifs.Cond).(*ast.BinaryExpr); ok && isNilLit(info, be.Y) && isErrorType(typeOf(info, be.X)) {
+				switch be.Op {
+				case token.NEQ:
+					errBranch = ifs.Body.List
+				case token.EQL:
+					// the error branch is what follows, provided the nil branch leaves main
+					if n := len(ifs.Body.List); n > 0 && errBranch == nil {
+						leaves := false
+						switch last := ifs.Body.List[n-1].(type) {
+						case *ast.ReturnStmt:
+							leaves = true
+						case *ast.ExprStmt:
+							if call, ok := ast.Unparen(last.X).(*ast.CallExpr); ok && isFunc(callee(info, call), "os", "", "Exit") {
+								leaves = true
+							}
+						}
+						if leaves {
+							okBranch = ifs.Body.List
+							errBranch = mainFn.Body.List[i+1:]
+						}
+					}
+				}
 			}
 		}
 	}
@@ -741,7 +762,11 @@ func c03ExitCodeMap(c *Check, a *Anchors) {
 			"main maps errors to exit statuses wrongly: "+strings.Join(bad, "; "))
 		// success exits 0
 		last := "none"
-		for _, st := range mainFn.Body.List {
+		successStmts := mainFn.Body.List
+		if okBranch != nil {
+			successStmts = okBranch
+		}
+		for _, st := range successStmts {
 			if es, ok := st.(*ast.ExprStmt); ok {
 				if call, ok := ast.Unparen(es.X).(*ast.CallExpr); ok && isFunc(callee(info, call), "os", "", "Exit") && len(call.Args) == 1 {
 					last = classify(info, call.Args[0])
